@@ -331,6 +331,11 @@ impl Rig {
         }
     }
 
+    /// the ceiling `Channel::new` really uses: `max_buffer_size.max(buffer_size)`
+    fn eff(&self) -> usize {
+        self.max.max(self.init)
+    }
+
     fn declare(&mut self, id: &str, payload: Vec<u8>) {
         if !self.table.iter().any(|(p, _)| *p == payload) {
             self.table.push((payload, id.to_string()));
@@ -421,7 +426,7 @@ impl Rig {
         let mut last = "nothing".to_string();
         let mut quiet = 0;
         for _ in 0..rounds {
-            let before = self.pending_bytes();
+            let before = (self.pending_bytes(), self.r.front_buf.available_data());
             let _ = self.flush(&[ALL]);
             self.deliver(RQ_CAP as u64);
             let _ = self.readable();
@@ -438,7 +443,7 @@ impl Rig {
                     }
                 }
             }
-            if got == 0 && self.pending_bytes() == before {
+            if got == 0 && (self.pending_bytes(), self.r.front_buf.available_data()) == before {
                 quiet += 1;
                 if quiet >= 3 {
                     break;
@@ -491,7 +496,7 @@ impl Rig {
                 // F10 shape: frame fits the ceiling, buffer at the ceiling, consumed bytes not shifted out
                 let unshifted = data.len() < self.r.front_buf.capacity();
                 match declared {
-                    Some(l) if l <= self.max && l >= 8 && unshifted => "wedge-bufferfull-unshifted",
+                    Some(l) if l <= self.eff() && l >= 8 && unshifted => "wedge-bufferfull-unshifted",
                     _ => "wedge-bufferfull-other",
                 }
             }
@@ -502,7 +507,7 @@ impl Rig {
             "toolarge" => match declared {
                 // buffer_size > max_buffer_size: the writer accepted a frame the reader must refuse
                 Some(l) if l > self.max && l <= self.init && self.init > self.max => "oversize-accepted-when-buffer-size-exceeds-max",
-                Some(l) if l > self.max => "wedge-oversize-prefix",
+                Some(l) if l > self.eff() => "wedge-oversize-prefix",
                 _ => "spurious-toolarge",
             },
             "under" => "wedge-under-length-prefix",
@@ -686,8 +691,9 @@ fn reference_frames(stream: &[u8], max: usize) -> Vec<WorkerRequest> {
 }
 
 fn gen_malformed(rng: &mut Rng, _thorough: bool) -> Vec<String> {
-    let (init, max) = *rng.pick(&[(100usize, 200usize), (1000, 2000), (64, 512), (100, 100), (4096, 8192)]);
+    let (init, max) = *rng.pick(&[(100usize, 200usize), (1000, 2000), (64, 512), (100, 100), (4096, 8192), (200, 100)]);
     let mut ops = vec![format!("new {init} {max}")];
+    let max = max.max(init); // the ceiling `Channel::new` really uses
     let nframes = rng.range(2, 8);
     let mut frames: Vec<(bool, String, Vec<u8>)> = vec![]; // (declared good, id, bytes)
     let mut bad_done = 0;
@@ -891,6 +897,21 @@ impl Area for ChannelArea {
                     "drain 50".into(),
                 ]
             },
+            // ceiling clamp (buffer_size 200 > max_buffer_size 100): frames the writer accepts
+            // (101, 150, 200 B) must be delivered, not refused by the reader for ever
+            {
+                let mut v = vec!["new 200 100".to_string()];
+                for (i, sz) in [101usize, 150, 200].iter().enumerate() {
+                    let m = build_msg(i as u64 + 1, *sz).unwrap();
+                    v.push(format!("w {} {}", canon_id(&m.id), segs(&m.encode_to_vec())));
+                    v.push(format!("flush {ALL}"));
+                    v.push(format!("deliver {ALL}"));
+                    v.push("readable".into());
+                    v.push("read".into());
+                }
+                v.push("drain 20".into());
+                v
+            },
             // empty payload frame (8 bytes) decodes to the default message
             s(&["new 100 200", "rawgood ~ 0800000000000000", "deliver 3", "readable", "read", "deliver 5", "readable", "read", "read", "drain 10"]),
             // hang-up
@@ -930,7 +951,7 @@ impl Area for ChannelArea {
                     (Ok(i), Ok(m)) => {
                         let mut g = Rig::new(i, m);
                         if !has_w {
-                            g.expected = reference_frames(&raw_stream, m).into();
+                            g.expected = reference_frames(&raw_stream, m.max(i)).into();
                         }
                         g.fifo_oracle = !mixed;
                         rig = Some(g);
@@ -954,7 +975,7 @@ impl Area for ChannelArea {
                         }
                         let flen = p.len() + 8;
                         g.declare(ws[1], p);
-                        run.tags.push(format!("w:{}", size_bucket(flen, g.init, g.max)));
+                        run.tags.push(format!("w:{}", size_bucket(flen, g.init, g.eff())));
                         match g.w.write_message(&Probe(m.clone())) {
                             Ok(()) => {
                                 g.expected.push_back(m);
@@ -965,10 +986,10 @@ impl Area for ChannelArea {
                                 run.tags.push(format!("werr:{}", s.split(' ').next().unwrap()));
                                 // back-pressure (pending + frame > max) is legitimate; refusing a frame
                                 // that fits the ceiling while nothing is pending is not
-                                if flen <= g.max && g.w.back_buf.available_data() == 0 {
+                                if flen <= g.eff() && g.w.back_buf.available_data() == 0 {
                                     run.oracle.push((
                                         "write-refused-frame-within-max".into(),
-                                        format!("frame of {flen} B refused ({s}) with an empty back buffer, max {}", g.max),
+                                        format!("frame of {flen} B refused ({s}) with an empty back buffer, ceiling {}", g.eff()),
                                     ));
                                 }
                                 format!("err {s}")
@@ -1044,6 +1065,23 @@ impl Area for ChannelArea {
                     for Probe(m) in &ms {
                         g.account(m, &mut run.oracle);
                         ids.push(canon_id(&m.id));
+                    }
+                    // the owner is only called again on a new socket event: on a well-formed
+                    // stream extract_messages must not return while a complete frame that fits
+                    // the ceiling is sitting unread in the front buffer + the socket
+                    if g.fifo_oracle && has_w && !g.closed {
+                        if let Some(next) = g.expected.front().map(|m| m.encoded_len() + 8) {
+                            let avail = g.r.front_buf.available_data() + fionread(g.r.sock.as_raw_fd());
+                            if next <= g.eff() && avail >= next {
+                                run.oracle.push((
+                                    "extract-left-complete-frame".into(),
+                                    format!(
+                                        "extract_messages returned with the next frame ({next} B, ceiling {}) completely received but unread: front data {} + socket {} bytes, front capacity {}",
+                                        g.eff(), g.r.front_buf.available_data(), fionread(g.r.sock.as_raw_fd()), g.r.front_buf.capacity()
+                                    ),
+                                ));
+                            }
+                        }
                     }
                     format!("msgs {}", if ids.is_empty() { "-".into() } else { ids.join(",") })
                 }
